@@ -22,7 +22,7 @@ ASSUMPTIONS = [
     "with delete=False a directory->file replacement over a non-empty directory cannot converge and must surface through onerror",
 ]
 MONITORS = "independent walk of the workspace (bytes, directories, exec bits) after apply; second compare's action lists; onerror recorder; audit-hook log of removals"
-REQUIRED_COUNTERS = ["targets_with_prefix_named_sibling_directories", "targets_with_entries_without_hash", "link_type_lists_with_an_unavailable_first_type", "implicit_parent_targets", 
+REQUIRED_COUNTERS = ["priors_with_more_than_a_thousand_stale_files", "targets_with_prefix_named_sibling_directories", "targets_with_entries_without_hash", "link_type_lists_with_an_unavailable_first_type", "implicit_parent_targets", 
     "same_index_histories_through_sqlite", "targets_handed_as_view", "root_key_file_targets", "priors_with_symlink_to_directory", "same_index_histories", "two_cache_targets", "implicit_parent_targets", "unavailable_directory_object_cases", "applies", "kind_swap_cases", "nested_dir_deletions", "lazy_targets", "explicit_targets", "delete_off_cases",
     "unavailable_source_cases", "second_compares", "exec_entries_checked", "link/hardlink", "link/symlink", "link/copy",
 ]
@@ -70,6 +70,12 @@ def run_shard(ctx):
                     res.count("targets_with_prefix_named_sibling_directories")
             lazy = rng.random() < 0.4
             delete = rng.random() < 0.8
+            if case % 200 == 7:
+                # more than a thousand stale files to be deleted in one go (and not a round number of them)
+                delete = True
+                for i_ in range(rng.choice([1001, 1100, 2350])):
+                    P[(top, "stale-files", f"s{i_:04d}")] = b"stale"
+                res.count("priors_with_more_than_a_thousand_stale_files")
             link = rng.choice(["default", "copy", "copy", "hardlink", "symlink"])
             # the caller may hand over a list of link types to try in turn (the first one may not be available: there is no reflink
             # on the filesystem these workspaces live on)
